@@ -246,7 +246,7 @@ for _pid in ('C01', 'C02', 'C03', 'C04', 'C05', 'C06', 'C07', 'C08', 'C09', 'C10
          f'{_pid}.z_ctor constructors neither store into nor mutate their arguments (unless rebound to a copy first); {_pid}.z_opt an optional dict / list / set argument is never mutated in place; '
          f'{_pid}.z_gen a local bound to a generator is consumed at most once along any execution')
 more('C03', 'interpretation follows module-level helpers and @property of the class', 'C03.f (generalised) a _unitary_ assembled through extracted helper functions / properties is interpreted like the inlined code')
-more('C04', 'interpretation of _extract_phase on a grid', 'C04.k the global phase operation is left out only when the phase is 1 (shift * exponent an even integer)')
+more('C04', 'interpretation of _extract_phase on a grid; effect rule on tensor arguments', 'C04.k the global phase operation is left out only when the phase is 1 (shift * exponent an even integer); C04.l tensors handed to Apply*Args are never bare ufunc results (scalars for zero-qubit states)')
 more('C07', 'provenance rule on the exhaustive fallback of Gateset.__contains__', 'C07.j the last-resort search iterates a field holding every family, never the values of an index keyed by gate; C07.k a measurement re-created from the qubits of an existing one forwards or refuses its invert mask and confusion map')
 more('C09', 'interpretation of the measurement-moment predicate; must-pass-through on configured durations',
      'C09.l validate_all_measurements: all measurements -> True, none / empty -> False, mixed -> raise; C09.m ThermalNoiseModel consults gate_durations_ns before a wait gate\'s own duration; C09.n functions that take matrices from the protocols and size by 2**n / 4**n also consult the dimensions (exceptions tabled)')
